@@ -1,4 +1,5 @@
 import MosnVerif.Lemmas.FilterComplete
+import MosnVerif.Gen.ProxyTerminate
 /-!
 # C14 — stream filters run in order, and a denied request is never forwarded (property theorems only)
 
@@ -87,6 +88,26 @@ theorem single_reply_partial (c : Cfg) (ha : answeredIn (trace c)) (hnt : ¬ ter
   have hrt : (final c).retried = false := (deny_noUp_noRetry c fuel (answeredIn_deny ha)).2
   exact single_reply_of c (final c) (run_Ginv c fuel init (init_Ginv c)) (final_halted c) ha hnt hno hex hrt
 
+/-- **reply_body_own** (two answering filters): whatever an earlier filter's answer left in the stream — the body of a
+`SendHijackReplyWithBody`, or nothing — the answer of a LATER filter replaces it completely: after a header-only
+`SendHijackReply` the stream holds no data and no trailers, after `SendHijackReplyWithBody` exactly that reply's own data,
+after `SendDirectResponse(headers, nil, nil)` none.  The effects of the three handler calls on the held data / trailers are
+regenerated (`Gen.ProxyReply`); together with `single_reply_partial` (the reply sent is the last answer, with a data call
+iff THAT answer has a body) every downstream data event belongs to the answer whose headers were sent. -/
+theorem reply_body_own (s : FState) (earlier : Act) (k : Nat) :
+    (applyAct (applyAct s earlier) (.hijack k false)).resp = some ⟨false, false⟩ ∧
+    (applyAct (applyAct s earlier) (.hijack k true)).resp = some ⟨true, false⟩ ∧
+    (applyAct (applyAct s earlier) .direct).resp = some ⟨false, false⟩ := by
+  refine ⟨?_, ?_, ?_⟩ <;> simp [applyAct, sendHijack_eq]
+
+/-- the asynchronous `TerminateStream` of this slice (`up = term<code>`, also with an in-flight upstream response landing
+inside the call, and on a kept handler of an earlier request) is the call of the shared downstream machine: theorems
+`stale_terminate_ignored` and `terminate_wins_or_loses_atomically` (Props/C03) are about the same regenerated step program,
+whose refusal tests and claim are pinned here as well -/
+theorem terminate_checks_in_order :
+    Gen.ProxyTerminate.checks = [.responseHeaders, .cleaned, .generation, .claim] ∧ Gen.ProxyTerminate.claimKind = .cas := by
+  decide
+
 /-- **complete (no filter is skipped)**: the first invocation of a stream is of the first filter of its phase and the
 earlier phases have no filters; inside a pass the next invocation is of the NEXT filter of the phase; when the phase
 changes, a pass whose last filter continued had reached the last filter of its phase, the new pass starts at the FIRST
@@ -146,6 +167,22 @@ example : answeredIn (trace exDeny) ∧ ¬ terminatedIn (trace exDeny) ∧ exDen
   · rw [exDeny_trace]; simp [terminatedIn, recvVerdicts]
 example : backPart (trace exDeny) = .spass 0 (sendRun exDeny.send 0) :: replyEvs ⟨false, false⟩ (some 403) := by
   rw [exDeny_trace]; decide
+
+/-- two answering filters in one pass: filter 0 answers 429 WITH a body and lets the chain go on, filter 1 denies with a
+header-only 403: the client gets the 403 headers as the end of the stream — no data call carrying filter 0's body -/
+def exTwoAnswers : Cfg :=
+  { recv := [⟨.AfterRoute, [⟨.hijack 429 true, .Continue⟩]⟩, ⟨.AfterRoute, [⟨.hijack 403 false, .Stop⟩]⟩],
+    send := [⟨[]⟩], env := envOK }
+
+example : trace exTwoAnswers =
+    [.rpass .BeforeRoute 0 [],
+     .rpass .AfterRoute 0 [(0, ⟨.hijack 429 true, .Continue⟩), (1, ⟨.hijack 403 false, .Stop⟩)],
+     .spass 0 [(0, .Continue)], .dh (some 403) true] := by decide +kernel
+
+/-- … and the other way round the later answer's own body is the one that is sent -/
+example : backPart (trace { exTwoAnswers with
+      recv := [⟨.AfterRoute, [⟨.hijack 403 false, .Continue⟩]⟩, ⟨.AfterRoute, [⟨.hijack 429 true, .Stop⟩]⟩] }) =
+    [.spass 0 [(0, .Continue)], .dh (some 429) false, .dd true] := by decide +kernel
 
 /-- a route with retry_on (every 5xx retriable, budget 3), an upstream that would answer 503 -/
 def envRetry : Env :=
